@@ -162,7 +162,7 @@ _cli_counter = [0]
 _cli_lock = threading.Lock()
 
 
-def run_cli(argv, files=None, stdin=b"", mtimes=None, timeout=60, keep=False, env_extra=None):
+def run_cli(argv, files=None, stdin=b"", mtimes=None, timeout=60, keep=False, env_extra=None, read_back=None):
     """run the REAL cfn-guard binary (built from /repo) in a scratch directory; `{DIR}` in argv is
     replaced by that directory.  Returns dict(code, stdout, stderr)."""
     with _cli_lock:
@@ -200,6 +200,14 @@ def run_cli(argv, files=None, stdin=b"", mtimes=None, timeout=60, keep=False, en
                "stderr": p.stderr.decode("utf-8", "replace").replace(d, "{DIR}")}
     except subprocess.TimeoutExpired:
         out = {"code": "timeout", "stdout": "", "stderr": ""}
+    if read_back:
+        # files the command wrote (or left alone), as they are after the run
+        out["read_back"] = {}
+        for name in read_back:
+            try:
+                out["read_back"][name] = open(os.path.join(d, name), "rb").read().decode("utf-8", "replace").replace(d, "{DIR}")
+            except OSError:
+                out["read_back"][name] = None
     if not keep:
         shutil.rmtree(d, ignore_errors=True)
     return out
